@@ -3,6 +3,7 @@ package progen
 
 import (
 	"fmt"
+	"go/token"
 	"sort"
 	"strings"
 )
@@ -437,7 +438,7 @@ func (t *Type) Features() []string {
 			if d.Pkg != nil {
 				add("ext")
 				for _, f := range d.Fields {
-					if f.Name != "" && strings.ToLower(f.Name[:1]) == f.Name[:1] {
+					if f.Name != "" && !token.IsExported(f.Name) {
 						add("ext-private")
 					}
 				}
